@@ -307,8 +307,10 @@ class BSL(ModelBased):
         previous = self.state['logposterior'][n-1]
         logp2 = 0
         if self.logit_transform_bound is not None:
-            curr_sample = self.state['params'][n]
-            prev_sample = self.state['params'][n-1]
+            curr_sample = self._para_logit_transform(self.state['params'][n],
+                                                     self.logit_transform_bound)
+            prev_sample = self._para_logit_transform(self.state['params'][n-1],
+                                                     self.logit_transform_bound)
             logp2 = self._jacobian_logit_transform(curr_sample, self.logit_transform_bound) - \
                 self._jacobian_logit_transform(prev_sample, self.logit_transform_bound)
         res = logp2 + current - previous
